@@ -250,8 +250,13 @@ func (tw *TumblingWindow) Add(data any) {
 			// triggered yet; the row triggers normally, keep it.
 		case tw.config.AllowedLateness > 0:
 			placed := false
+			wmNow := tw.watermark.GetCurrentWatermark()
 			for _, info := range tw.triggeredWindows {
-				if info.slot.Contains(eventTime) {
+				// A window whose allowance has already expired by the current
+				// watermark no longer accepts late rows, even if the trigger
+				// goroutine has not yet reaped it (closeExpiredWindows runs only
+				// when a watermark is delivered).
+				if info.slot.Contains(eventTime) && wmNow.Before(info.closeTime) {
 					tw.handleLateData(eventTime, tw.config.AllowedLateness)
 					placed = true
 					break
